@@ -482,6 +482,8 @@ pub struct Case {
     /// occasional sleep (microseconds, upper bound) inside Probe::next in mode F: a thread that holds the source's
     /// hand-over handle is slow, others have reserved positions and wait
     pub probe_sleep_us: u32,
+    /// Src::ConIterVec only: number of elements taken from the concurrent iterator before it is turned into a Par
+    pub pre_consumed: usize,
 }
 
 impl Case {
